@@ -913,7 +913,7 @@ def search(ctx, budget_s):
 
     def report(cfg, probs):
         for key, what, detail in probs:
-            if key in found:
+            if key in found or sum(1 for k in found if k.split("/")[0] == key.split("/")[0]) >= 2:
                 continue
             found.add(key)
             small = shrink(cfg, key, rng) if key.startswith("formula/d") else cfg
